@@ -3,6 +3,7 @@ package rules
 import (
 	"fmt"
 	"go/ast"
+	"go/constant"
 	"go/parser"
 	"go/token"
 	"go/types"
@@ -982,5 +983,164 @@ func c13r10(rc *core.RC) {
 	}
 	if n < 10 {
 		rc.Unknown("encoder/container-ToOpcode", token.NoPos, "found %d opcode-making calls in SliceCode/ArrayCode/MapCode.ToOpcode (confirmed: 13)", n)
+	}
+}
+
+// ---- C13.R11 every option constructor changes exactly the flag it names ----
+
+// The option constructors of package json return closures over the pooled Option. Each is folded over the two
+// extreme starting values of the flag word (no bit set, every bit set): a constructor that names a behaviour must
+// set exactly that behaviour's bit, a Disable… constructor must clear exactly it, and nothing else may change
+// (`^=` toggles: applied to a word that has the bit it would clear it; `= X` drops the entry point's defaults).
+func c13r11(rc *core.RC) {
+	p := rc.P
+	type want struct {
+		pkg, flag string
+		set       bool
+	}
+	table := map[string]want{
+		"UnorderedMap":                {"encoder", "UnorderedMapOption", true},
+		"DisableHTMLEscape":           {"encoder", "HTMLEscapeOption", false},
+		"DisableNormalizeUTF8":        {"encoder", "NormalizeUTF8Option", false},
+		"Debug":                       {"encoder", "DebugOption", true},
+		"Colorize":                    {"encoder", "ColorizeOption", true},
+		"DecodeFieldPriorityFirstWin": {"decoder", "FirstWinOption", true},
+	}
+	n := 0
+	for name, w := range table {
+		fd := p.Func("json", name)
+		key := "json." + name + "/changes-exactly-its-flag"
+		if fd == nil || fd.Body == nil {
+			rc.Unknown(key, token.NoPos, "option constructor not found")
+			continue
+		}
+		n++
+		rc.Touch("json." + name)
+		info := p.Info(fd)
+		var bit int64 = -1
+		if pk := p.Pkg(w.pkg); pk != nil {
+			if c, ok := pk.Types.Scope().Lookup(w.flag).(*types.Const); ok {
+				if v, exact := constant.Int64Val(c.Val()); exact {
+					bit = v
+				}
+			}
+		}
+		if bit <= 0 || bit&(bit-1) != 0 {
+			rc.Bad(key, fd.Pos(), "%s.%s is not a single bit (%d)", w.pkg, w.flag, bit)
+			continue
+		}
+		var lit *ast.FuncLit
+		ast.Inspect(fd.Body, func(m ast.Node) bool {
+			if fl, ok := m.(*ast.FuncLit); ok && lit == nil {
+				lit = fl
+			}
+			return true
+		})
+		if lit == nil {
+			rc.Unknown(key, fd.Pos(), "the constructor does not return a closure")
+			continue
+		}
+		// the width of the flag word
+		all := int64(1)<<16 - 1
+		if pk := p.Pkg(w.pkg); pk != nil {
+			if c, ok := pk.Types.Scope().Lookup(w.flag).(*types.Const); ok {
+				if b, isBasic := c.Type().Underlying().(*types.Basic); isBasic {
+					switch b.Kind() {
+					case types.Uint8:
+						all = 1<<8 - 1
+					case types.Uint16:
+						all = 1<<16 - 1
+					case types.Uint32:
+						all = 1<<32 - 1
+					}
+				}
+			}
+		}
+		decided := true
+		run := func(start int64) int64 {
+			v := start
+			for _, st := range lit.Body.List {
+				as, ok := st.(*ast.AssignStmt)
+				if !ok || len(as.Lhs) != 1 || len(as.Rhs) != 1 {
+					decided = false
+					continue
+				}
+				sel, isSel := core.Unparen(as.Lhs[0]).(*ast.SelectorExpr)
+				if !isSel || (sel.Sel.Name != "Flag" && sel.Sel.Name != "Flags") {
+					continue // another field of the option (ColorScheme, DebugOut)
+				}
+				bp := &core.BytePred{P: p}
+				// the right-hand side may mention the flag word itself (opt.Flag = opt.Flag | X): bind nothing, fold constants
+				var rhs int64
+				if x, isC := core.ConstInt(info, as.Rhs[0]); isC {
+					rhs = x
+				} else if x, ok2 := bp.EvalInt(info, as.Rhs[0], core.BindAll(nil)); ok2 {
+					rhs = x
+				} else {
+					decided = false
+					continue
+				}
+				rhs &= all
+				switch as.Tok {
+				case token.OR_ASSIGN:
+					v |= rhs
+				case token.AND_ASSIGN:
+					v &= rhs
+				case token.AND_NOT_ASSIGN:
+					v &^= rhs
+				case token.XOR_ASSIGN:
+					v ^= rhs
+				case token.ASSIGN:
+					v = rhs
+				default:
+					decided = false
+				}
+			}
+			return v & all
+		}
+		r0, r1 := run(0), run(all)
+		if !decided {
+			rc.Unknown(key, lit.Pos(), "the closure of %s has a statement on the flag word that could not be folded", name)
+			continue
+		}
+		var e0, e1 int64
+		if w.set {
+			e0, e1 = bit, all
+		} else {
+			e0, e1 = 0, all&^bit
+		}
+		verb := map[bool]string{true: "sets", false: "clears"}[w.set]
+		rc.Check(r0 == e0 && r1 == e1, key, lit.Pos(), "%s %s exactly %s.%s (%#x) and leaves every other bit of the flag word alone: from 0 it gives %#x (wanted %#x), from all bits it gives %#x (wanted %#x)", name, verb, w.pkg, w.flag, bit, r0, e0, r1, e1)
+	}
+	// the flag constants of each flag word are distinct single bits
+	for _, fw := range [][2]string{{"encoder", "OptionFlag"}, {"decoder", "OptionFlags"}, {"encoder", "OpFlags"}} {
+		pk := p.Pkg(fw[0])
+		if pk == nil {
+			continue
+		}
+		seen := map[int64]string{}
+		ok := true
+		var dup string
+		cnt := 0
+		for _, nm := range pk.Types.Scope().Names() {
+			c, isConst := pk.Types.Scope().Lookup(nm).(*types.Const)
+			if !isConst || !strings.HasSuffix(c.Type().String(), fw[0]+"."+fw[1]) {
+				continue
+			}
+			v, _ := constant.Int64Val(c.Val())
+			cnt++
+			if v <= 0 || v&(v-1) != 0 {
+				ok, dup = false, nm+" is not a single bit"
+			}
+			if o, had := seen[v]; had {
+				ok, dup = false, nm+" and "+o+" are the same bit"
+			}
+			seen[v] = nm
+		}
+		n++
+		rc.Check(ok && cnt > 0, fw[0]+"."+fw[1]+"/distinct-single-bits", token.NoPos, "the %d constants of %s.%s are distinct single bits %s", cnt, fw[0], fw[1], dup)
+	}
+	if n < 9 {
+		rc.Unknown("json/option-constructors", token.NoPos, "found %d of 6 option constructors and 3 flag words", n)
 	}
 }
